@@ -173,6 +173,25 @@ pub fn record(rng: &mut SmallRng, n_events: usize, out: &mut dyn Write) {
             writeln!(out, "{}", json!({"ev": op, "h": js(&h), "n": js(&n), "ret": ret})).unwrap();
             left -= 1;
         }
+        // one-byte needles in haystacks of 8..40 bytes over bytes that differ in one bit (b/c, `/a, ,/-, 0/1):
+        // word-at-a-time searches confuse exactly such neighbours
+        if rng.gen_range(0..4) == 0 {
+            let swar: [char; 8] = ['a', '`', 'b', 'c', ',', '-', '0', '1'];
+            let base = rng.gen_range(0..4) * 2;
+            let c = swar[base + rng.gen_range(0..2)];
+            let hl = rng.gen_range(8..=40);
+            let h: String = (0..hl).map(|_| match rng.gen_range(0..6) { 0 | 1 => swar[base], 2 | 3 => swar[base + 1], _ => swar[rng.gen_range(0..8)] }).collect();
+            let n = c.to_string();
+            for op in OPS {
+                if left == 0 {
+                    break;
+                }
+                let ret = if rng.gen_bool(0.5) { catch(std::panic::AssertUnwindSafe(|| str_op!(op, h.as_str(), c))) }
+                          else { catch(std::panic::AssertUnwindSafe(|| str_op!(op, h.as_str(), n.as_str()))) };
+                writeln!(out, "{}", json!({"ev": op, "h": js(&h), "n": js(&n), "ret": ret})).unwrap();
+                left -= 1;
+            }
+        }
         // long needles (lengths around 8, 16, 32, 64 bytes) inside longer haystacks, one case in four
         if rng.gen_range(0..4) == 0 {
             let (h, n) = gen_long_case(rng);
